@@ -160,9 +160,18 @@ def same_tree_prelude(data, hist):
                 'author': AUTHOR, 'base_back': 0})
     hist.apply({'op': 'open_pr', 'src': 'feature/TEST-2-st', 'dst': dst,
                 'author': AUTHOR2, 'base_back': 0})
+    from vf.sim.world import ADMIN
+    one_step = data.draw(st.integers(0, 2), label='st_one_step') > 0
     for pr in sorted(w.prs):
         for u in (PEER1, PEER2, w.prs[pr]['author']):
             hist.apply({'op': 'approve', 'pr': pr, 'user': u})
+        if one_step:
+            # everything is ready at the first evaluation: integration
+            # branches are created and merged by one job (a second
+            # evaluation of such a pull request ends in a spurious
+            # BranchHistoryMismatch, see DESIGN 9.2 observations)
+            hist.apply({'op': 'comment', 'pr': pr, 'user': ADMIN,
+                        'text': '@robot bypass_build_status'})
         for _ in range(2):
             hist.apply({'op': 'pr_event', 'pr': pr})
             hist.apply({'op': 'report_pr', 'pr': pr, 'state': 'SUCCESSFUL'})
@@ -183,7 +192,7 @@ def prelude(data, hist):
     if hist.params.get('rename') and data.draw(st.integers(0, 1),
                                                label='rename_prelude'):
         return rename_prelude(data, hist)
-    if data.draw(st.integers(0, 4), label='same_tree') == 0:
+    if data.draw(st.integers(0, 3), label='same_tree') == 0:
         return same_tree_prelude(data, hist)
     if data.draw(st.integers(0, 5), label='backport') == 0:
         return backport_prelude(data, hist)
